@@ -1,3 +1,4 @@
+import runner
 from runner import Harness as H
 
 P = "c40::proofs::"
@@ -33,6 +34,7 @@ SPEC = {
     "id": "C40",
     "crate": "h-core",
     "harnesses": hs,
+    "native_replay": {"c40_known_backslash_unix": runner.make_native_replay("h-core", "known_backslash_unix_examples", "components .git\\x, git~1\\, a\\.git, '.GIT \\hooks' with protect_ntfs on and protect_windows off")},
     "functions": ["gix_validate::path::component", "is_dot_hfs", "is_dot_git_ntfs", "is_dot_ntfs", "is_done_ntfs", "is_win_device", "check_win_devices_and_illegal_characters"],
     "bounds": "every ASCII component up to 5 (6 thorough) bytes; the spelled-out names with every case pattern and arbitrary tails of 1-3 bytes; one ignorable code point at the listed positions; all option combinations",
     "outside": ["components containing a backslash while protect_windows is off (known finding C40-F12, checked by its own harness)", "'.' and '..' (refused by gix_fs::Stack / the worktree delegate, not by component())", "non-ASCII bytes other than the 16 HFS-ignorable code points (git treats invalid UTF-8 as end of name in its HFS check)",
